@@ -99,12 +99,19 @@ PyEq(x, y) ==
   ELSE FALSE
 
 \* Python comparison  x op y : "T" true, "F" false, "E" Python refuses (TypeError)
+\* numbers and strings are totally ordered; sets (set / frozenset, also mixed) are ordered by
+\* inclusion, which is only a partial order: neither x <= y nor x > y may hold
+IsSetV(v) == IsC(v) /\ Family(v.cls) = "set"
 Ordered(x, y) == (IsNum(x) /\ IsNum(y)) \/ (x.k = "str" /\ y.k = "str")
 Lt(x, y) == IF IsNum(x) THEN Num(x) < Num(y) ELSE StrRank[x.s] < StrRank[y.s]
+SubsetEq(x, y) == \A i \in 1..Len(x.items) : \E j \in 1..Len(y.items) : PyEq(x.items[i], y.items[j])
 TF(b) == IF b THEN "T" ELSE "F"
 PyCmp(op, x, y) ==
   IF op = "==" THEN TF(PyEq(x, y))
   ELSE IF op = "!=" THEN TF(~PyEq(x, y))
+  ELSE IF IsSetV(x) /\ IsSetV(y) THEN
+    (IF op = "<=" THEN TF(SubsetEq(x, y)) ELSE IF op = ">=" THEN TF(SubsetEq(y, x))
+     ELSE IF op = "<" THEN TF(SubsetEq(x, y) /\ ~SubsetEq(y, x)) ELSE TF(SubsetEq(y, x) /\ ~SubsetEq(x, y)))
   ELSE IF ~Ordered(x, y) THEN "E"
   ELSE IF op = "<" THEN TF(Lt(x, y))
   ELSE IF op = ">" THEN TF(Lt(y, x))
@@ -161,8 +168,9 @@ TGet(cur, steps, i) ==
   IF i > Len(steps) THEN Ok(cur)
   ELSE LET r == TreeGetItem(cur, steps[i]) IN IF r.ok THEN TGet(r.v, steps, i + 1) ELSE r
 
-\* the named predicates of the harness library: what calling them on t does
-\* ("raise" = raises ValueError)
+\* the named predicates of the harness library: what calling them on t does (a value, or
+\* the class of the exception raised)
+\*   recip: 1 / x > 0      head: x[0] == 'a'      boom: ValueError      boom_attr: AttributeError
 PredRet(name, t) ==
   IF name = "yes" THEN Ok(VBool(TRUE))
   ELSE IF name = "no" THEN Ok(VBool(FALSE))
@@ -170,6 +178,11 @@ PredRet(name, t) ==
   ELSE IF name = "truthy" THEN Ok(VBool(PyTruthy(t)))
   ELSE IF name = "isnum" THEN Ok(VBool(IsNum(t)))
   ELSE IF name = "falsy" THEN Ok(VBool(~PyTruthy(t)))
+  ELSE IF name = "recip" THEN
+    (IF ~IsNum(t) THEN Exc("TypeError") ELSE IF Num(t) = 0 THEN Exc("ZeroDivisionError") ELSE Ok(VBool(Num(t) > 0)))
+  ELSE IF name = "head" THEN
+    (LET r == TreeGetItem(t, VInt(0)) IN IF r.ok THEN Ok(VBool(PyEq(r.v, VStr("a")))) ELSE r)
+  ELSE IF name = "boom_attr" THEN Exc("AttributeError")
   ELSE Exc("ValueError")                           \* "boom"
 
 \* ===================================================================================
@@ -552,8 +565,14 @@ EvTuple(t, p) ==
 
 \* _MExpr.glomit: lhs cmp c decides, the target is passed through; a comparison Python itself
 \* refuses is not a rejection: its TypeError propagates
+\* (mutant cmp_by_complement: != > >= decided as the negations of == <= <, which is wrong where
+\* the order is partial)
+Complement(cmp) == IF cmp = "!=" THEN "==" ELSE IF cmp = ">" THEN "<=" ELSE "<"
 EvCmp(t, lhs, cmp, c) ==
-  LET r == PyCmp(cmp, lhs, c) IN
+  LET r0 == PyCmp(cmp, lhs, c)
+      rc == PyCmp(Complement(cmp), lhs, c)
+      r == IF Mutant = "cmp_by_complement" /\ cmp \in {"!=", ">", ">="} /\ r0 # "E"
+           THEN (IF rc = "T" THEN "F" ELSE "T") ELSE r0 IN
   IF r = "T" THEN Pass(t, <<>>, TRUE)
   ELSE IF r = "F" \/ Mutant = "unorderable_is_rejection" THEN Fail({"MatchError"}, <<>>) ELSE Fail({"TypeError"}, <<>>)
 
@@ -565,7 +584,9 @@ Ev(mode, t, p) ==
   ELSE IF p.op = "pred" THEN
     LET r == PredRet(p.name, t) IN
     IF mode = "match"                                    \* truthy -> target; falsy / raising -> MatchError
-    THEN IF r.ok /\ PyTruthy(r.v) THEN Pass(t, <<p.id>>, FALSE) ELSE Fail({"MatchError"}, <<p.id>>)
+    THEN IF r.ok /\ PyTruthy(r.v) THEN Pass(t, <<p.id>>, FALSE)
+         ELSE IF ~r.ok /\ Mutant = "callable_some_exceptions" /\ r.exc \notin {"TypeError", "ValueError"} THEN Fail({r.exc}, <<p.id>>)
+         ELSE Fail({"MatchError"}, <<p.id>>)          \* whatever the callable raises is a rejection
     ELSE IF r.ok THEN Pass(r.v, <<p.id>>, FALSE) ELSE Fail({r.exc}, <<p.id>>)     \* Auto: spec(target)
   ELSE IF p.op = "regex" THEN                            \* Regex.glomit: a string the pattern matches
     IF t.k # "str" THEN Fail({IF Mutant = "regex_nonstr_typematcherror" THEN "TypeMatchError" ELSE "MatchError"}, <<>>)
@@ -609,7 +630,7 @@ Ev(mode, t, p) ==
 
 \* outcomes as state-variable values: errs as a sequence in a fixed order
 ErrNames == <<"MatchError", "TypeMatchError", "CheckError", "PathAccessError", "GlomError",
-              "TypeError", "ValueError", "Unmodelled">>
+              "TypeError", "ValueError", "ZeroDivisionError", "IndexError", "KeyError", "AttributeError", "Unmodelled">>
 Dumped(o) == [o EXCEPT !.errs = SelectSeq(ErrNames, LAMBDA e : e \in o.errs)]
 Undumped(o) == [o EXCEPT !.errs = {o.errs[i] : i \in 1..Len(o.errs)}]
 
@@ -629,6 +650,19 @@ CtorTable ==
    check_equal_to_and_one_of |-> "TypeError", check_one_of_empty |-> "ValueError", check_type_not_a_type |-> "ValueError",
    check_validate_not_callable |-> "ValueError", check_instance_of_empty |-> "ValueError", check_unknown_kwarg |-> "TypeError",
    check_no_conditions |-> "ok"]
+
+\* a spec object evaluated again, after it was evaluated on t1: the outcome is that of a fresh
+\* object (specs carry no memory).  (mutant or_remembers_branch: an Or tries first the non-final
+\* child that passed last time)
+RECURSIVE EvAgain(_, _, _, _)
+EvAgain(mode, t1, t2, p) ==
+  IF p.op = "match" THEN WithDefault(EvAgain("match", t1, t2, p.sub), p)
+  ELSE IF Mutant = "or_remembers_branch" /\ p.op = "or" THEN
+    LET S == {i \in 1..Len(p.c) : Ev(mode, t1, p.c[i]).ok}
+        j == IF S = {} THEN 0 ELSE MinOf(S)
+    IN IF j <= 1 \/ j = Len(p.c) THEN Ev(mode, t2, p)
+       ELSE Ev(mode, t2, [p EXCEPT !.c = <<p.c[j]>> \o SubSeq(p.c, 1, j - 1) \o SubSeq(p.c, j + 1, Len(p.c))])
+  ELSE Ev(mode, t2, p)
 
 \* --- the interface named by the design --------------------------------------------
 Conforms(heap, target, pattern) == Holds("match", TreeOf(heap, target), pattern)
